@@ -298,6 +298,10 @@ func check(t rep.Fataler, c Case, sub string) {
 func TestProp(t *testing.T) {
 	rapid.Check(t, func(t *rapid.T) {
 		ch := yamlgen.GenChoice(t)
+		if rapid.IntRange(0, 7).Draw(t, "hollow") == 0 {
+			// one step that has an `executor` key saying nothing and nothing else to execute
+			ch.StepKinds[rapid.IntRange(0, len(ch.StepKinds)-1).Draw(t, "hollowStep")] = rapid.IntRange(7, 10).Draw(t, "hollowKind")
+		}
 		c := Case{Choice: &ch, Muts: yamlgen.GenMutations(t, 3)}
 		check(t, c, "grammar")
 	})
